@@ -141,4 +141,5 @@ Definition apply_dec (uni_tr : N -> N) (k : deckind) (u : uval) : option uval :=
   | DUtf8 => match u with VBytes b => option_map VStr (decode b) | _ => None end
   | DB64 => option_map VBytes (b64 u)
   | DB64Utf8 => match b64 u with Some b => option_map VStr (decode b) | None => None end
+  | DUtf8Text => match u with VStr t => Some (VStr t) | VBytes b => option_map VStr (decode b) | VInt _ => None end
   end.
